@@ -9,6 +9,7 @@ import (
 	"github.com/twmb/franz-go/pkg/kmsg"
 
 	"verif/sim/kbatch"
+	"verif/sim/kseg"
 	"verif/sim/simrt"
 )
 
@@ -311,6 +312,9 @@ func (w *w1) judgeProgress(fr *fetchRec, known []logBatch, batches []*kbatch.Bat
 		if b.BaseOffset == target.base {
 			return
 		}
+		if b.BaseOffset <= fr.offset && fr.offset <= b.BaseOffset+int64(b.LastOffsetDelta) {
+			return // a batch the ledger does not know (acks=0, unanswered) holds the offset: that is progress
+		}
 		if b.BaseOffset > target.base {
 			return // skipping is C03's clause
 		}
@@ -336,6 +340,22 @@ func (w *w1) judgeProgress(fr *fetchRec, known []logBatch, batches []*kbatch.Bat
 	if len(batches) > 0 {
 		lb := batches[len(batches)-1]
 		last = lb.BaseOffset + int64(lb.LastOffsetDelta)
+	}
+	if w.cfg("index_interval", 100) == 1 {
+		// a dense index has an entry for every batch: the known sparse-index finding cannot explain this
+		idxNote := ""
+		for _, k := range w.s3.Keys(w.partPrefix(fr.topic, fr.part)) {
+			if strings.HasSuffix(k, ".index") {
+				if b, ok := w.s3.Peek(k); ok {
+					if ix, err := kseg.ParseIndex(b); err == nil {
+						idxNote += fmt.Sprintf(" [%s: interval %d, %d entries]", k[len(k)-32:], ix.Interval, len(ix.Entries))
+					}
+				}
+			}
+		}
+		w.sim.Note("c04 dense-index violation; stored indexes:" + idxNote)
+		w.sim.Fail("C04", "fetch-only-before-offset-dense-index", "fetch %s/%d@%d max=%d returned only data up to offset %d (plus %d trailing bytes) although every batch has its own index entry; the start of batch %d holding/after the offset is not included", fr.topic, fr.part, fr.offset, fr.maxBytes, last, len(rest), target.base)
+		return
 	}
 	w.sim.FailSoft("C04", "fetch-only-before-offset", "fetch %s/%d@%d max=%d returned only data up to offset %d (plus %d trailing bytes); the start of batch %d holding/after the offset is not included", fr.topic, fr.part, fr.offset, fr.maxBytes, last, len(rest), target.base)
 }
